@@ -171,7 +171,10 @@ def _in_attr(lines, k):
 
 def build_cli(repo, workdir, features=()):
     """build /repo's logos-cli from the working tree (offline); returns the binary path"""
-    tdir = os.path.join(workdir, 'vlex-target' + ('-' + '-'.join(features) if features else ''))
+    # one target directory per (repository path, feature set): cargo keys path packages by workspace-relative paths, so two
+    # checkouts sharing a target directory are told apart by file mtimes only
+    rp = hashlib.sha1(os.path.realpath(repo).encode()).hexdigest()[:8]
+    tdir = os.path.join(workdir, 'vlex-target-%s' % rp + ('-' + '-'.join(features) if features else ''))
     cmd = ['cargo', 'build', '-q', '-p', 'logos-cli', '--offline', '--target-dir', tdir]
     if features: cmd += ['--features', ','.join(features)]
     env = dict(os.environ, CARGO_NET_OFFLINE='true')
